@@ -63,11 +63,23 @@ type BCase struct {
 	RKind   int    `json:"rkind"`
 	RIdx    int    `json:"ridx"`
 	Op      int    `json:"op"`
+	OpName  string `json:"op_name,omitempty"` // authoritative when present (indices shift when the op table grows)
 	Arg     int    `json:"arg"`
 	Revoke  bool   `json:"revoke"`
 	Layers  int    `json:"layers,omitempty"` // >0: the target is itself wrapped in this many forwarding proxies
 	Bare    bool   `json:"bare,omitempty"`   // diagnostic probe: run the operation on the bare target, no proxy at all
 	Text    string `json:"text"`             // human-readable rendering (not used by replay)
+}
+
+// resolve makes a decoded case independent of table positions that may have shifted since it was recorded.
+func (c *BCase) resolve() {
+	if c.OpName != "" {
+		for i := range ops {
+			if ops[i].name == c.OpName {
+				c.Op = i
+			}
+		}
+	}
 }
 
 func (c *BCase) describe() string {
